@@ -72,6 +72,18 @@ def run(tier, seed):
     wd = vlib.workdir("c10")
     try:
         res = c08.mc_phase(wd, tier)
+        # unbounded addresses and lengths: NoOverlap is an inductive invariant of the allocation rules (Apalache, SMT)
+        if vlib.apalache("AllocInd", "Init", "IndInv", 0, wd, cinit="ConstInit", tag="ind0") != "NoError" or \
+                vlib.apalache("AllocInd", "IndInit", "IndInv", 1, wd, cinit="ConstInit", tag="ind1") != "NoError":
+            raise vlib.ToolError("AllocInd: NoOverlap is not inductive for the specification's allocation rules (specification defect)")
+        # non-vacuity: a resize rule that ignores the other areas is refuted
+        if vlib.apalache("AllocInd", "IndInit", "IndInv", 1, wd, cinit="ConstInit", tag="indx",
+                         mutate=("             /\\ ~Collides(areas[i].start, n, i)", "             /\\ TRUE")) != "Error":
+            raise vlib.ToolError("AllocInd: the broken resize rule is not refuted (inductive check vacuous?)")
+        rep.cov["inductive_invariant"] = {"tool": "apalache-mc 0.58", "module": "AllocInd.tla", "invariant": "Len(areas) <= 5 /\\ Bounded /\\ NoOverlap",
+                                          "obligations": ["Init => IndInv (length 0)", "IndInv /\\ Next => IndInv' (length 1, IndInit = Gen(5))"],
+                                          "non_vacuity": "resize rule without the collision test: counterexample found",
+                                          "scope": "all integer addresses and lengths (unbounded), at most 5 areas"}
         edges = [e for e in c08.mbt_edges(wd) if e["hist"][-1]["op"] in ALLOC_OPS]
         sc1 = c08.edge_scenarios(edges)
         n1, s1, _ = mc.validate(sc1, wd, "edges", rep, 8)
